@@ -271,9 +271,10 @@ def _ibt_cases():
     return out
 
 
-REG.add(Contract(MB, "is_boundary_type", "C18", [("reaction", TRef("Reaction")), ("boundary_type", TConc("exchange")), ("external_compartment", TStr())],
-                 _ibt_cases(), key=IBT, result="bool",
-                 note="an `sbo` annotation that is a list is non-empty (assumed with the annotation getter)"))
+_ibt = REG.add(Contract(MB, "is_boundary_type", "C18", [("reaction", TRef("Reaction")), ("boundary_type", TConc("exchange")), ("external_compartment", TStr())],
+                        _ibt_cases(), key=IBT, result="bool",
+                        note="an `sbo` annotation that is a list is non-empty (assumed with the annotation getter)"))
+_ibt.genexp_unroll = 8        # `any(ex in reaction.id for ex in excludes[type])`: a constant tuple of up to 8 fragments, evaluated one by one
 
 
 # ---------------------------------------------------------------- find_boundary_types
